@@ -67,22 +67,17 @@ pub struct Remover {}
     }
 //@end
 
-/// mm_spec has the properties promised to the callers. Sortedness, emptiness, extent, EXACT COVERAGE (lemma_mm_core) and
-/// "every marker endpoint is an endpoint of some node range" (lemma_mm_endpoints) are PROVED by induction over the forest
-/// with the mcm lemmas; the one remaining clause of mm_post - pair indices are consistent - is stated and NOT YET PROVED.
-#[verifier::external_body]
-pub proof fn lemma_mm_pairs(f: Seq<GTree>)
-    requires exists|lo: int, hi: int| wf_forest(f, lo, hi),
-    ensures pairs_consistent(mm_spec(f)),
-{}
+/// mm_spec has the properties promised to the callers: sortedness, emptiness, extent, EXACT COVERAGE (lemma_mm_core),
+/// marker endpoints are node-range endpoints (lemma_mm_endpoints), pair indices are consistent (lemma_mm_pairs_sized) -
+/// all PROVED by induction over the forest from the mcm lemmas.
 pub proof fn lemma_mm_post(f: Seq<GTree>)
-    requires exists|lo: int, hi: int| wf_forest(f, lo, hi),
+    requires exists|lo: int, hi: int| wf_forest(f, lo, hi), 2 * forest_size(f) < usize::MAX,
     ensures mm_post(f, mm_spec(f)),
 {
     let (lo, hi) = choose|lo: int, hi: int| wf_forest(f, lo, hi);
     lemma_mm_core(f, lo, hi);
     lemma_mm_endpoints(f, lo, hi);
-    lemma_mm_pairs(f);
+    lemma_mm_pairs_sized(f);
 }
 
 //@fn id=merge_markers file=code/remover.rs name=merge_markers in="impl Remover" props=C01,C02,C03,C04,C12,C15
